@@ -178,6 +178,17 @@ def run_case(case):
                              average_sources=case['avg'], return_dict=rd)
         typ = 'dict' if isinstance(res, dict) else 'tuple'
         keys = sorted(res.keys()) if isinstance(res, dict) else []
-        return [dict(kind='container', rd=case['rd'], prefix=case['prefix'], type=typ, keys=keys, exc=exc,
+        # the values behind the (prefixed) keys sdr / sir / snr are the tuple result of the same call, in that order
+        rng2 = np.random.default_rng(case['seed'])
+        if case['fn'] == 'input':
+            ref, _ = _call(sxr_module.input_sxr, rng2.normal(size=(K, D, T)), rng2.normal(size=(D, T)), average_sources=case['avg'])
+        else:
+            ref, _ = _call(sxr_module.output_sxr, rng2.normal(size=(K, K, T)), rng2.normal(size=(K, T)), average_sources=case['avg'])
+        same = True
+        if isinstance(res, dict) and ref is not None:
+            pfx = case['prefix'] if case['rd'] == 'prefix' else ''
+            same = all(pfx + k in res and np.array_equal(np.asarray(res[pfx + k]), np.asarray(v), equal_nan=True)
+                       for k, v in zip(('sdr', 'sir', 'snr'), tuple(ref)))
+        return [dict(kind='container', rd=case['rd'], prefix=case['prefix'], type=typ, keys=keys, exc=exc, values_same=bool(same),
                      fp=f'fn={case["fn"]}_sxr;return_dict={case["rd"]}', key=f'cont:{case["fn"]}:{case["rd"]}:{case["avg"]}')]
     raise ValueError(t)
